@@ -62,6 +62,14 @@ impl<'h> FindMatchesImpl<'h> {
         }
         self.last_position = 0;
         self.offset = offset;
+        // The character in front of the new position decides whether a line starts there.
+        self.last_char = self
+            .input
+            .get(..offset)
+            .unwrap_or(self.input)
+            .chars()
+            .next_back()
+            .unwrap_or('\0');
     }
 
     /// Returns the next match in the haystack.
@@ -90,8 +98,8 @@ impl<'h> FindMatchesImpl<'h> {
                 self.record_line_offset(i + self.offset, c);
             } else {
                 // The iterator is exhausted.
-                // We should update the line offsets with the last character of the haystack.
-                self.record_line_offset(self.last_position + self.offset, '\0');
+                // If the haystack ends with a newline, a new line starts at its end.
+                self.record_line_offset(self.input.len(), '\0');
                 break;
             }
         }
